@@ -2,6 +2,7 @@
 import Midi.Driver.Scan
 import Midi.Model.Polling
 import Midi.Spec.Monitor
+import Midi.Spec.Grammar
 namespace Midi.Driver
 open Midi Midi.Spec
 
@@ -16,11 +17,16 @@ inductive POp
 structure MonTab where
   timeout : Nat
   mons : Array (Option Mon)
+  /-- per channel: every controller-6 event (value, feed time) since the scanner was created — the executable form of
+      C13.poll_report_justified: a poll may report value f only if some controller-6 message with value f was fed at a
+      time arr with timeout ≤ now - arr -/
+  cc6log : Array (List (Nat × Nat)) := Array.replicate 16 []
 
 structure PollSt where
   now : Nat := 0
   tab : Array (Option (PScanner × List POp)) := #[]
   mon : Array (Option MonTab) := #[]
+  flushSnap : Array (Option (List PNMsg)) := #[]
 
 def decodeMsg (cs : List Int) : Option PNMsg :=
   match cs with
@@ -74,6 +80,11 @@ def monitorReq (st : PollSt) (args : List String) (impl : Obs) : PollSt × List 
       let o := decodePOut impl
       if 176 ≤ s && s < 192 then
         let (st', f) := monitorEvent st id (s - 176) (.cc d1 d2 st.now) o
+        let st' := if d1 == 6 then
+            (match getAt st'.mon id with
+             | some mt => { st' with mon := setAt st'.mon id { mt with cc6log := mt.cc6log.modify (s - 176) (fun l => (d2, st.now) :: l.take 64) } }
+             | none => st')
+          else st'
         (st', f.toList)
       else if (outMsgs o).isEmpty then (st, [])
       else (st, [s!"c14Monitor a message that is not a Control Change reported something: status={s} result={repr o}"])
@@ -82,7 +93,15 @@ def monitorReq (st : PollSt) (args : List String) (impl : Obs) : PollSt × List 
     match id.toNat?, ch.toNat? with
     | some id, some ch =>
       let (st', f) := monitorEvent st id ch (.poll st.now) (decodeMsg impl, none)
-      (st', f.toList)
+      -- C13: a poll's report must be justified by a controller-6 message fed at least `timeout` ago
+      let c13 : List String :=
+        match decodeMsg impl, getAt st.mon id with
+        | some r, some mt =>
+          let log := (mt.cc6log[ch]?).getD []
+          if !r.is14Bit && r.dataType == .dataEntry && log.any (fun p => p.1 == r.value && decide (mt.timeout ≤ st.now - p.2)) then []
+          else [s!"c13Monitor poll reported value={r.value} at now={st.now} timeout={mt.timeout} but no controller-6 message with that value was fed at least the timeout ago: log={repr log}"]
+        | _, _ => []
+      (st', f.toList ++ c13)
     | _, _ => (st, [])
   | _ => (st, [])
 
@@ -144,6 +163,38 @@ def evalPP (st : PollSt) (args : List String) : Option (PollSt × Obs × Option 
       let (x, _) ← getAt st.tab (← a.toNat?)
       let t ← timeout.toNat?
       some (st, [cBool (x == PScanner.new t), cBool (PScanner.new 0 == PScanner.default)], some [1, 1])
+  | "c12begin" :: id :: ch :: [] => do
+      let id ← id.toNat?
+      let ch ← ch.toNat?
+      let (sc, _) ← getAt st.tab id
+      let c ← sc[ch]?
+      some ({ st with flushSnap := setAt st.flushSnap id (flush ch c) }, opOk, some opOk)
+  | "c12end" :: id :: ch :: toks => do
+      let id ← id.toNat?
+      let ch ← ch.toNat?
+      let fl ← getAt st.flushSnap id
+      let bs ← parseBlocks toks
+      let cells := (fl ++ intended ch bs).flatMap pnObs
+      let expected : Obs := if cells.isEmpty then [0] else cells   -- the empty report list is written as the single cell 0
+      some (st, expected, some expected)
   | _ => none
+where
+  parseUnit (t : String) : Option VUnit :=
+    match t.splitOn ":" with
+    | ["a", v] => v.toNat?.map VUnit.msbAlone
+    | ["p", m, l] => do some (VUnit.msbLsb (← m.toNat?) (← l.toNat?))
+    | ["f", l] => l.toNat?.map VUnit.further
+    | ["q", l, m] => do some (VUnit.lsbMsb (← l.toNat?) (← m.toNat?))
+    | ["i", v] => v.toNat?.map (VUnit.incDec true)
+    | ["d", v] => v.toNat?.map (VUnit.incDec false)
+    | _ => none
+  parseBlocks (toks : List String) : Option (List Block) :=
+    let groups := (toks.splitBy (fun _ b => b != "B")).filter (fun g => !g.isEmpty)
+    groups.mapM (fun g =>
+      match g with
+      | "B" :: reg :: mf :: num :: us => do
+          let units ← us.mapM parseUnit
+          some { reg := reg == "1", msbFirst := mf == "1", number := ← num.toNat?, units := units }
+      | _ => none)
 
 end Midi.Driver
